@@ -510,7 +510,11 @@ func (c *Collection) Update(key string, exp Exp, callback sgbucket.UpdateFunc) (
 		if err == nil {
 			break
 		} else if _, ok := err.(sgbucket.CasMismatchErr); !ok {
-			return 0, err // fatal error
+			// A document deleted by another writer after it was read makes WriteCas report it
+			// missing: that is a lost race like a CAS mismatch, not an error of this update.
+			if !errors.As(err, &missingError) || cas == 0 {
+				return 0, err // fatal error
+			}
 		}
 	}
 	return casOut, err
